@@ -308,6 +308,10 @@ def func_adl_parameterized_call(
     return decorator
 
 
+# Types of default values that can be written into the query as a literal
+_literal_default_types = (str, int, float, bool, complex, bytes, type(None))
+
+
 def _fill_in_default_arguments(func: Callable, call: ast.Call) -> Tuple[ast.Call, Type]:
     """Given a call and the function definition:
 
@@ -348,10 +352,16 @@ def _fill_in_default_arguments(func: Callable, call: ast.Call) -> Tuple[ast.Call
                 if a is not None:
                     arg_array.append(a)  # type: ignore
                 elif param.default is not param.empty:
+                    if not isinstance(param.default, _literal_default_types):
+                        # A default like `{}` (e.g. the internal `known_types` argument of the
+                        # stream operators) can't be written as a literal in the query: leave
+                        # this and any later argument for the callee to default.
+                        break
                     a = as_literal(param.default)
                     arg_array.append(a)
                 else:
                     raise ValueError(f"Argument {param.name} is required")
+            i_arg += 1
 
     # If we are making a change to the call, put in a reference back to the
     # original call.
